@@ -5,6 +5,28 @@ fn felt(x: u64) -> BigUint {
     BigUint::from(x)
 }
 
+/// Heap-free ExactSizeIterator over a slice of serialized felts.
+struct It<'a> {
+    data: &'a [BigUintAsHex],
+    pos: usize,
+}
+impl<'a> Iterator for It<'a> {
+    type Item = &'a BigUint;
+    fn next(&mut self) -> Option<&'a BigUint> {
+        if self.pos < self.data.len() {
+            self.pos += 1;
+            Some(&self.data[self.pos - 1].value)
+        } else {
+            None
+        }
+    }
+    fn size_hint(&self) -> (usize, Option<usize>) {
+        let n = self.data.len() - self.pos;
+        (n, Some(n))
+    }
+}
+impl<'a> ExactSizeIterator for It<'a> {}
+
 /// Runs a deserialiser on a slice of up to 6 felts with arbitrary 64-bit contents and an
 /// arbitrary length; it must return (no panic, no overflow).
 macro_rules! total_on_slices {
@@ -12,12 +34,14 @@ macro_rules! total_on_slices {
         #[kani::proof]
         #[kani::unwind($unwind)]
         fn $name() {
-            let data = [felt(kani::any()), felt(kani::any()), felt(kani::any()),
-                        felt(kani::any()), felt(kani::any()), felt(kani::any())];
+            let data = [
+                BigUintAsHex { value: felt(kani::any()) }, BigUintAsHex { value: felt(kani::any()) },
+                BigUintAsHex { value: felt(kani::any()) }, BigUintAsHex { value: felt(kani::any()) },
+                BigUintAsHex { value: felt(kani::any()) }, BigUintAsHex { value: felt(kani::any()) },
+            ];
             let n: usize = kani::any();
             kani::assume(n <= 6);
-            let refs: Vec<&BigUint> = data[..n].iter().collect();
-            let mut it = refs.into_iter();
+            let mut it = It { data: &data[..n], pos: 0 };
             let r = <$ty>::deserialize(&mut it);
             kani::cover!(r.is_ok(), "accepting run reachable");
             kani::cover!(r.is_err(), "rejecting run reachable");
@@ -79,12 +103,11 @@ fn c14_version_id_from_felt252s() {
 
 // ------------------------------------------------------------------ C18 round trips
 fn roundtrip<T: Felt252Serde + PartialEq>(t: &T, expect_len: usize) {
-    let mut out = vec![];
+    let mut out = Vec::with_capacity(16);
     let r = t.serialize(&mut out);
     assert!(r.is_ok());
     assert!(out.len() == expect_len);
-    let vals: Vec<&BigUint> = out.iter().map(|v| &v.value).collect();
-    let mut it = vals.into_iter();
+    let mut it = It { data: &out[..], pos: 0 };
     let back = T::deserialize(&mut it);
     assert!(back.is_ok());
     let back = back.unwrap();
